@@ -117,9 +117,16 @@ def run(res, tier):
                     closure[h.get("n")] = norm.canon(uf, h.get("n"))
                     work.append(closure[h.get("n")])
         tests = [(n_, f_, c) for n_, f_ in closure.items() for c in cir.calls(f_, "mju_isBad")]
-        if len(tests) != 1:
-            raise AnalysisError(f"{fname}: expected exactly one mju_isBad test in the function and its static helpers, found {len(tests)}")
-        tname, tfn, tcall = tests[0]
+        # the scanning test: the one applied to an array element inside a loop; any other use of mju_isBad is an ordinary
+        # condition (and makes whatever it guards conditional, see "scan is unconditional" below)
+
+        def _in_loop(f_, c):
+            return any(l.get("k") in ("ForStmt", "WhileStmt", "DoStmt") and any(x is c for x in cir.walk(l)) for l in cir.walk(f_))
+        scans = [t for t in tests if _in_loop(t[1], t[2]) and (cir.strip(cir.args(t[2])[0]) or {}).get("k") == "ArraySubscriptExpr"]
+        if len(scans) != 1:
+            raise AnalysisError(f"{fname}: expected exactly one element-wise mju_isBad scan in the function and its static helpers, "
+                                f"found {len(scans)} (of {len(tests)} mju_isBad calls)")
+        tname, tfn, tcall = scans[0]
         tbody = cir.body(tfn)
         # ---- what is tested: d-><field>, directly, through a local alias or through the helper's pointer parameter
         arg = cir.args(tcall)[0]
@@ -173,6 +180,18 @@ def run(res, tier):
                     problems.append(f"loop bound `{cl['bound']}` (= {lim}) does not cover {full}")
                 if cl["start"] != "0":
                     problems.append(f"scan starts at `{cl['start']}`, not 0")
+        # ---- the scan is unconditional: nothing but the function's own entry decides whether the vector is scanned
+        if len(loops) == 1:
+            lg = [(cir.text(c_), p_) for c_, p_, st_ in (norm.guards(tbody, loops[0], stmts=True) or [])
+                  if not (st_ is not None and st_.get("k") in ("ForStmt", "WhileStmt", "DoStmt"))]
+            if tname != fname:
+                hc_ = [c for c in cir.calls(fn, tname)]
+                if hc_:
+                    lg += [(cir.text(c_), p_) for c_, p_ in (norm.guards(body, hc_[0]) or [])]
+            if lg:
+                problems.append("the scan is skipped unless " + " && ".join((a if p_ else f"!({a})") for a, p_ in lg[:3]) +
+                                ": a bad value the shortcut does not see (e.g. a NaN masked by a later finite entry in a max-reduction) "
+                                "is never reported")
         # ---- which guards mean "a bad value was found"
         found_var = None
         none_val = None
